@@ -1592,7 +1592,7 @@ def typehint_metavar(typehint):
         enum = typehint
         metavar = iter_to_set_str(enum.__members__)
     elif is_optional(typehint, Enum):
-        enum = typehint.__args__[0]
+        enum = get_optional_arg(typehint, Enum)
         metavar = iter_to_set_str(list(enum.__members__.keys()) + ["null"])
     elif typehint_origin in tuple_set_origin_types:
         metavar = "[ITEM,...]"
